@@ -7,8 +7,8 @@
 //!
 //! Finder (implementation alone), for every returned fragment and snippet: non-empty; contains
 //! `pre X post` with non-empty `X`; with all tags removed it is a substring of the stored text;
-//! at most `fragment_size` characters; at most `number_of_fragments` fragments; the tagged text is
-//! one of the query's terms up to letter case.
+//! at most `fragment_size` characters; at most `number_of_fragments` fragments; the tagged text is,
+//! as a whole, a match of the query's terms/phrases.
 //! Correspondence: `SL.Highlight.fieldHighlights/makeSnippet (sliceCode)` vs the implementation,
 //! byte for byte; the regex results the model takes as inputs (`find_at` on the text, matches
 //! inside each fragment) come from the real `regex` crate with the pattern built as in
@@ -72,9 +72,14 @@ fn gen_text(rng: &mut Rng, alpha: usize) -> String {
   t
 }
 
-/// the pattern of `highlight_fragments` for plain terms (no phrases)
-fn build_regex(terms: &[String]) -> Option<Regex> {
-  let pats: Vec<String> = terms.iter().filter(|t| !t.is_empty()).map(|t| format!(r"\b{}\b", regex::escape(t))).collect();
+/// the pattern of `highlight_fragments`: phrase alternatives first, then the terms
+fn build_regex(phrases: &[Vec<String>], terms: &[String]) -> Option<Regex> {
+  let mut pats: Vec<String> = Vec::new();
+  for ph in phrases.iter().filter(|p| !p.is_empty()) {
+    let joined = ph.iter().map(|p| regex::escape(p)).collect::<Vec<_>>().join(r"\W+");
+    pats.push(format!(r"\b{joined}\b"));
+  }
+  pats.extend(terms.iter().filter(|t| !t.is_empty()).map(|t| format!(r"\b{}\b", regex::escape(t))));
   if pats.is_empty() {
     return None;
   }
@@ -161,7 +166,7 @@ impl Prop for C21 {
     "C21"
   }
   fn rule(&self) -> &'static str {
-    "case = (3..8 documents of 2..40 words over one of four alphabets: ASCII | ASCII+Latin-1 | ASCII+CJK | all incl. emoji, optionally led by a long multi-byte run; query = 1..2 distinct words of one document as query string / term / bool-should; highlight on `body` with fragment_size in [2*max query word bytes, 80], number_of_fragments 1..4, tags <em> | [[ ]] | default; highlight_field snippet in the same request); one evaluation per hit; non-trivial when a fragment or snippet was returned for the hit and the first window does not cover the whole text; distinct = distinct (case, hit id) JSON"
+    "case = (3..8 documents of 2..40 words over one of four alphabets: ASCII | ASCII+Latin-1 | ASCII+CJK | all incl. emoji, optionally led by a long multi-byte run; query = 1..2 distinct words of one document as query string / term / bool-should, or (1 in 5) a two-word phrase of adjacent words as bool{must phrase, should term}; highlight on `body` with fragment_size in [2*max query word bytes, 80], number_of_fragments 1..4, tags <em> | [[ ]] | default; highlight_field snippet in the same request); one evaluation per hit; non-trivial when a fragment or snippet was returned for the hit and the first window does not cover the whole text; distinct = distinct (case, hit id) JSON"
   }
   fn count(&self, tier: Tier) -> usize {
     tier.pick(1500, 60000)
@@ -182,9 +187,20 @@ impl Prop for C21 {
       words.push("rust".into());
     }
     let nq = 1 + rng.below(2.min(words.len()));
-    let qw: Vec<String> = words[..nq].to_vec();
-    let qkind = rng.below(3);
-    let maxlen = qw.iter().map(|w| w.len()).max().unwrap_or(1);
+    let mut qw: Vec<String> = words[..nq].to_vec();
+    let mut qkind = rng.below(3);
+    let mut maxlen = qw.iter().map(|w| w.len()).max().unwrap_or(1);
+    // 1 case in 5: a phrase of two adjacent words of the source document (bool must phrase +
+    // should term of its first word, which supplies the scored postings)
+    let seq: Vec<String> = src.split(|c: char| !c.is_alphanumeric()).filter(|w| !w.is_empty()).map(|w| w.to_string()).collect();
+    let mut phrase = Value::Null;
+    if rng.chance(1, 5) && seq.len() >= 2 {
+      let k = rng.below(seq.len() - 1);
+      phrase = json!([seq[k], seq[k + 1]]);
+      qw = vec![seq[k].clone()];
+      qkind = 3;
+      maxlen = seq[k].len() + seq[k + 1].len() + 3;
+    }
     let lo = 2 * maxlen;
     let size = match rng.below(4) {
       0 => lo,
@@ -197,7 +213,7 @@ impl Prop for C21 {
       1 => json!(["[[", "]]"]),
       _ => Value::Null,
     };
-    json!({"docs": docs, "words": qw, "qkind": qkind, "size": size, "nfrag": nfrag, "tags": tags})
+    json!({"docs": docs, "words": qw, "phrase": phrase, "qkind": qkind, "size": size, "nfrag": nfrag, "tags": tags})
   }
 
   fn run_case(&self, drv: &mut Driver, case: &Value, s: &mut Summary) {
@@ -211,7 +227,9 @@ impl Prop for C21 {
       Some(a) => (a[0].as_str().unwrap_or("<em>").to_string(), a[1].as_str().unwrap_or("</em>").to_string()),
       None => ("<em>".to_string(), "</em>".to_string()),
     };
+    let phrase_words: Vec<String> = case["phrase"].as_array().map(|a| a.iter().map(|w| w.as_str().unwrap_or("").to_string()).collect()).unwrap_or_default();
     let query = match case["qkind"].as_u64().unwrap_or(0) {
+      3 if !phrase_words.is_empty() => json!({"type": "bool", "must": [{"type": "phrase", "field": "body", "terms": phrase_words}], "should": words.iter().map(|w| json!({"type": "term", "field": "body", "value": w})).collect::<Vec<_>>()}),
       1 if words.len() == 1 => json!({"type": "term", "field": "body", "value": words[0]}),
       2 => json!({"type": "bool", "should": words.iter().map(|w| json!({"type": "term", "field": "body", "value": w})).collect::<Vec<_>>()}),
       _ => json!(words.join(" ")),
@@ -254,8 +272,18 @@ impl Prop for C21 {
     let sa = an.search_analyzer("body").expect("analyzer");
     let hl_terms: Vec<String> = dedup(words.iter().flat_map(|w| sa.analyze(w).into_iter().map(|t| t.text)).collect());
     let field_terms: Vec<String> = dedup(hl_terms.iter().flat_map(|w| sa.analyze(w).into_iter().map(|t| t.text)).collect());
-    let re_field = build_regex(&field_terms);
-    let re_snip = build_regex(&hl_terms);
+    // phrases: every phrase term analysed with the field's search analyzer (`normalize_phrase_terms`)
+    let phrases: Vec<Vec<String>> = if phrase_words.is_empty() {
+      Vec::new()
+    } else {
+      let seq: Vec<String> = phrase_words.iter().flat_map(|w| sa.analyze(w).into_iter().map(|t| t.text)).collect();
+      if seq.is_empty() { vec![phrase_words.clone()] } else { vec![seq] }
+    };
+    if !phrases.is_empty() {
+      s.count("phrase_query");
+    }
+    let re_field = build_regex(&phrases, &field_terms);
+    let re_snip = build_regex(&phrases, &hl_terms);
     let maxlen_terms = field_terms.iter().map(|t| t.len()).max().unwrap_or(0);
 
     let hits = resp["hits"].as_array().cloned().unwrap_or_default();
@@ -323,16 +351,20 @@ impl Prop for C21 {
         if it.s.is_empty() {
           bad.push("empty-fragment");
         }
-        // `pre X post` with non-empty X (for the snippet pre == post == "**"), and X is one of
-        // the query's terms up to letter case
-        let terms: &Vec<String> = if it.what == "snippet" { &hl_terms } else { &field_terms };
+        // `pre X post` with non-empty X (for the snippet pre == post == "**"), and X is, as a
+        // whole, a match of the query's terms/phrases
+        let re_it = if it.what == "snippet" { re_snip.as_ref() } else { re_field.as_ref() };
         let tagged_x: Option<&str> = it.s.find(it.pre).and_then(|p| {
           let rest = &it.s[p + it.pre.len()..];
           rest.find(it.post).map(|q| &rest[..q])
         });
         let tagged = tagged_x.map(|x| !x.is_empty()).unwrap_or(false);
-        if tagged && !terms.iter().any(|t| t.to_lowercase() == tagged_x.unwrap_or("").to_lowercase()) {
-          bad.push("tagged-text-not-a-match");
+        if tagged {
+          let x = tagged_x.unwrap_or("");
+          let whole = re_it.and_then(|re| re.find(x)).map(|m| m.start() == 0 && m.end() == x.len()).unwrap_or(false);
+          if !whole {
+            bad.push("tagged-text-not-a-match");
+          }
         }
         if !tagged {
           bad.push("no-tagged-match");
